@@ -3,6 +3,9 @@
 import json, os, glob
 HERE = os.path.dirname(os.path.dirname(os.path.abspath(__file__)))
 CHECKS = {
+ "C15": dict(cat="model_checking", tech="explicit-state exploration by history replay over a 12-event menu (loads, conversions, re-initialisation, second backends, failing conversions) on real backends/pipelines; differential probe against a fresh-equivalent setup in every state",
+             text="Every history up to depth 4 (quick) / 5 (thorough) is replayed on fresh real objects (fresh backend class with a class-level backend pipeline, fresh user pipeline with state/field-mapping/nested/conditional items, cleared module caches); after every event the backend class attributes must be unchanged, after every history three probe rules must convert exactly as in a fresh setup. Replay determinism is checked first; states/transitions counted.",
+             note="histories beyond the depth bound and other event kinds are not covered; canon lists the mutable locations the menu can reach", ref="§3 C15"),
  "C09": dict(cat="model_checking", tech="exhaustive exploration of all document permutations x load paths (one YAML stream, from_dicts, merge at every cut, load_ruleset files) of each rule-set template on the real SigmaCollection/Backend; order-independence and reference-model invariants in every state",
              text="For every rule-set template (<= 6 documents quick, 7 thorough; references by name/id, chains of depth 3, shared, missing, generate on/off) every permutation and every load path is loaded, resolved and converted; outcome signature must be identical across all of them, referenced rules precede referrers, the emitted set equals the reference, plain-rule queries equal stand-alone conversion, a missing reference is a SigmaError at load time, resolving twice is idempotent.",
              note="correlation query text judged by C10; reference emitted-set model in checks/c09_references.py", ref="§3 C09"),
